@@ -461,7 +461,20 @@ def _render(ck, fx):
     for b in cand:
         if any(n.get("k") == "Match" and n.get("src") == "Normal" for n, ps in walk_body(b)):
             pb = b
-    if ck.anchor("R15.render", "Pointer rendering", pb):
+    sem_rows = None
+    if pb is not None:
+        try:
+            from . import c15_render as CR0
+            sem_rows = CR0.decide_pointer(fx, pb)
+        except Exception as e:  # noqa
+            ck.note("R15.render: pointer renderer could not be executed symbolically (%s: %s); falling back to the shape rules" % (type(e).__name__, str(e)[:80]))
+    if sem_rows is not None:
+        ck.fn(pb["path"])
+        for key, okr, whyr in sem_rows:
+            ck.ob("R15.render", key, okr, loc(pb), whyr)
+        pb = None       # decided semantically; the shape rules below are the fall-back
+        ck.anchor("R15.render", "Pointer rendering", True)
+    if pb is not None and ck.anchor("R15.render", "Pointer rendering", pb):
         ck.fn(pb["path"])
         m = find_matches(pb)[0]
         got = {}
